@@ -437,9 +437,9 @@ Definition convx_arg0 (a : arg) : bool :=
   negb (is_some (a_index a)) && (a_is_positional a || (negb (a_last a) && negb (a_tva a))).
 Definition user_conventionalx (c0 : cmd) : bool :=
   negb (s_built (c_set c0))
-  && negb (is_set s_sub_precedence c0) && negb (is_set s_allow_missing_pos c0)
+  && negb (is_set s_sub_precedence c0)
   && negb (is_set s_allow_hyphen c0) && negb (is_set s_allow_negnum c0) && negb (is_set s_tva c0)
-  && forallb convx_arg0 (c_args c0) && last_only_multiple (c_args c0).
+  && forallb convx_arg0 (c_args c0).
 
 Lemma convx_arg0_index : forall l, forallb convx_arg0 l = true -> no_index l = true.
 Proof.
@@ -450,19 +450,16 @@ Qed.
 Theorem convx_of_user c0 : valid c0 = true -> user_conventionalx c0 = true -> convx (build_self c0) = true.
 Proof.
   intros Hv H. unfold user_conventionalx in H.
-  apply andb_prop in H. destruct H as [H Hl]. apply andb_prop in H. destruct H as [H Hargs]. apply andb_prop in H. destruct H as [H Htva].
-  apply andb_prop in H. destruct H as [H Hnn]. apply andb_prop in H. destruct H as [H Hhy]. apply andb_prop in H. destruct H as [H Hamp].
+  apply andb_prop in H. destruct H as [H Hargs]. apply andb_prop in H. destruct H as [H Htva].
+  apply andb_prop in H. destruct H as [H Hnn]. apply andb_prop in H. destruct H as [H Hhy].
   apply andb_prop in H. destruct H as [Hb Hsp].
   assert (Eb : s_built (c_set c0) = false) by (destruct (s_built (c_set c0)); [discriminate|reflexivity]).
   assert (S1 : is_set s_allow_hyphen c0 = false) by (destruct (is_set s_allow_hyphen c0); [discriminate|reflexivity]).
   assert (S2 : is_set s_allow_negnum c0 = false) by (destruct (is_set s_allow_negnum c0); [discriminate|reflexivity]).
   assert (S3 : is_set s_tva c0 = false) by (destruct (is_set s_tva c0); [discriminate|reflexivity]).
-  pose proof (low_index_of_user c0 Eb S1 S2 S3 (convx_arg0_index _ Hargs) Hl) as Hlow.
   unfold convx. rewrite (valid_assert_app c0 Hv).
   rewrite (is_set_build_self s_sub_precedence c0 (fun s => eq_refl) (set_sp c0)).
-  rewrite (is_set_build_self s_allow_missing_pos c0 (fun s => eq_refl) (set_amp c0)).
-  rewrite Hsp, Hamp. unfold Escape.low_index_mults_any. unfold low_index_multiple in Hlow. rewrite Hlow.
-  cbn [andb negb]. rewrite !andb_true_r.
+  rewrite Hsp. cbn [andb negb].
   apply (built_args_pred convx_arg0 convx_arg c0); try assumption.
   - intros a Ha E. unfold convx_arg0 in Ha. apply andb_prop in Ha. destruct Ha as [Hi Ha].
     destruct (ab_flags a) as [F1 [F2 [F3 F4]]]. rewrite ab_positional, ab_index in E.
